@@ -97,6 +97,15 @@ def gen(rng: Rng, tier, i):
         det = [big.pick([16, 17, 32, 33, 64]), big.pick([16, 24, 32, 65])]   # more than 64/128 patterns
     if big.chance(0.06):
         scan = [big.pick([8, 9, 12, 16]), big.pick([9, 11, 16, 17])]
+    # process-global numeric state of torch is part of the environment (like warning filters for the
+    # serializer): torch.set_float32_matmul_precision('high'/'medium') lets float32 matrix products run
+    # in reduced precision. The centre of mass is a weighted mean, not something a user expects that
+    # switch to touch - and batch invariance must hold under it (round 16, S-C18p)
+    mm = rng.fork("matmul")
+    matmul = mm.pick(["highest"] * 5 + ["high", "medium", "medium"])
+    if matmul != "highest" and mm.chance(0.5):
+        det = [mm.pick([32, 33, 48, 64]), mm.pick([32, 40, 65])]
+        scan = [mm.pick([8, 9, 12, 16]), mm.pick([9, 11, 16, 17])]
     n = scan[0] * scan[1]
     ops = []
     for j in range(rng.pick([4, 6, 9])):
@@ -142,7 +151,7 @@ def gen(rng: Rng, tier, i):
             op["as"] = r.pick(["numpy", "tensor", "noncontig"])
             op["seed"] = r.randrange(10 ** 6)
         ops.append(op)
-    return {"scan": scan, "det": det, "fill": rng.randrange(10 ** 6), "ops": ops,
+    return {"scan": scan, "det": det, "fill": rng.randrange(10 ** 6), "ops": ops, "matmul": matmul,
             "dtype": rng.pick(["float32", "float32", "float64", "uint16", "int32", "uint8"]),
             # intensity scale 2**e (exact in binary floating point): the centre of mass is scale-free
             "scale_e": rng.fork("scale").pick([0, 0, 0, 0, -70, -50, -30, -12, -3, 7, 24, 40, 60]),
@@ -229,6 +238,19 @@ def _same_bits(x, y):
 
 
 def run(plan):
+    torch = _ctx["torch"]
+    old = torch.get_float32_matmul_precision()
+    torch.set_float32_matmul_precision(plan.get("matmul", "highest"))
+    try:
+        res = _run(plan)
+    finally:
+        torch.set_float32_matmul_precision(old)
+    if plan.get("matmul", "highest") != "highest":
+        bump(res["probes"], "reduced_float32_matmul_precision")
+    return res
+
+
+def _run(plan):
     torch = _ctx["torch"]
     fault = _ctx["fault"]
     res = new_result()
